@@ -1,5 +1,6 @@
 import TabulaModel.Util
 import TabulaModel.Model.Xref
+import TabulaModel.Model.XrefBytes
 namespace Tabula.C04H
 open Tabula Tabula.Xref
 
@@ -86,6 +87,20 @@ def handle (op : String) (args : List String) : String :=
       let res := run ⟨x, objs⟩ {} ops
       s!"xref=[{dumpXref x}] res=[{",".intercalate (res.map showVal)}]"
     | _, _, _, _ => "bad-op"
+  | "c04.xent", [h] =>
+    match unhex h with
+    | some bs =>
+      (match XrefBytes.parseEntry (bs.map (·.toNat)) with
+       | some (off, gen, inUse) => s!"ok {off} {gen} {if inUse then "n" else "f"}"
+       | none => "err")
+    | none => "bad-op"
+  | "c04.xsent", [ws, h] =>
+    match (ws.splitOn ",").mapM String.toNat?, unhex h with
+    | some [w0, w1, w2], some bs =>
+      (match XrefBytes.parseStreamEntry (bs.map (·.toNat)) w0 w1 w2 with
+       | some ((k, f1, f2), n) => s!"ok {XrefBytes.kindCode k} {f1} {f2} {n}"
+       | none => "err")
+    | _, _ => "bad-op"
   | _, _ => "bad-op"
 
 end Tabula.C04H
